@@ -125,6 +125,9 @@ def guard(obj, log=None):
     g = g_for(obj)
     for m in list(getattr(obj, '_rrule', [])) + list(getattr(obj, '_exrule', [])):
         g_for(m)
+    if g is None:
+        # the object has no lock (yet): nothing to replace; hand back an inert counter so that callers need not care
+        g = locks.GuardLock('absent')
     return g
 
 
@@ -335,11 +338,14 @@ def count_steps(R, codes, kind, n, ops):
 # (iii) free-running threads
 # ---------------------------------------------------------------------------------------------
 
-def free_running(ctx, R, rng, kind, n, nthreads, rounds):
+def free_running(ctx, R, rng, kind, n, nthreads, rounds, native=False):
+    """native=True leaves the object's own lock in place (the way the lock comes into being is then part of what the
+    threads race on); otherwise the lock is a guard lock whose ownership decides a hang"""
     L = list(make(R, kind, n, False))
     for _ in range(rounds):
         obj = make(R, kind, n, True)
-        g = guard(obj)
+        g = locks.GuardLock('unused') if native else guard(obj)
+        ctx.count('free_running_native_rounds' if native else 'free_running_guarded_rounds')
         out = [None] * nthreads
         barrier = threading.Barrier(nthreads)
 
@@ -430,8 +436,10 @@ def run(ctx):
     # (iii) free-running
     sys.setswitchinterval(1e-6)
     try:
-        for _ in range(3 if ctx.tier == 'quick' else 40):
-            free_running(ctx, R, rng, rng.choice(['rule', 'set', 'nested']), rng.choice([10, 11, 21, 30]), rng.randint(2, 6), 10)
+        with S.YieldInjector(codes, prob=.35, seed=ctx.seed) as inj:
+            for k in range(6 if ctx.tier == 'quick' else 80):
+                free_running(ctx, R, rng, rng.choice(['rule', 'set', 'nested']), rng.choice([10, 11, 21, 30]), rng.randint(2, 6), 10, native=bool(k % 2))
+            ctx.count('injected_yields', inj.yields)
     finally:
         sys.setswitchinterval(0.005)
     ctx.sample({'scenario': 'scheduled', 'distinct_interleavings_this_shard': len(sigs)})
